@@ -575,6 +575,15 @@ theorem parseScope_wf (s : Bytes) : WF (parseScope s) := by
   have h := newScope_wf ((fields s).flatMap parseField)
   exact ⟨h.1, h.2, h.3, h.4, h.5⟩
 
+/-- `ParseScope` keeps the text only for printing: the scope denotes what `NewScope` of
+the parsed fields denotes. -/
+theorem mem_parseScope (r : RS) (s : Bytes) :
+    Mem r (parseScope s) ↔ ∃ w ∈ fields s, r ∈ parseField w := by
+  have h : iter (parseScope s) = iter (newScope ((fields s).flatMap parseField)) := rfl
+  unfold Mem
+  rw [h]
+  exact (mem_newScope r _).trans List.mem_flatMap
+
 /-! ### `holds` -/
 
 theorem eq_of_name_eq {es : List Ent} (h : StrictAsc (es.map (·.name))) {e1 e2 : Ent}
